@@ -476,6 +476,10 @@ def gen_case(rng, tier, family, regime=None):
                                     "scale_rbf+scale_matern", "poly"]),
                  mean=rng.choice(["zero", "constant", "constant"]), lik=rng.choice(["gaussian", "gaussian", "fixed", "fixed+learned"]),
                  d=rng.randint(2, 3))
+        if regime.startswith("nonbatch") and rng.random() < 0.7:
+            # coincident sizes are where silent mis-broadcasts hide: let the number of input dimensions (= length of an ARD
+            # lengthscale vector) equal the last batch size, so that a `1 x d` parameter is shape-compatible with the batch
+            c["d"] = max(2, F[-1])
         d = c["d"]
         if regime == "nonbatch-kernel":
             # a shared (non-batch) kernel with a vector parameter and a prior on it inside a batched objective
